@@ -306,10 +306,15 @@ class CustomError(Exception):
 
 
 def _make_exc(name):
-    table = {"ValueError": ValueError, "CustomError": CustomError, "KeyboardInterrupt": KeyboardInterrupt,
-             "SystemExit": SystemExit, "GeneratorExit": GeneratorExit, "MemoryError": MemoryError,
-             "BaseException": BaseException}
-    return table[name]("injected user-code failure")
+    import builtins
+
+    if name == "CustomError":
+        return CustomError("injected user-code failure")
+    if name == "DDSException":
+        import dds
+
+        return dds.DDSException("injected user-code failure raised as a DDSException by user code")
+    return getattr(builtins, name)("injected user-code failure")
 
 
 def _child(rfd, wfd):
